@@ -219,4 +219,26 @@ example : ¬ PkgWalk [0, 0, 0, 1, 0, 12, 0, 0, 0, 0, 0, 0, 1, 2, 3, 4] := by
     · revert h; decide
     · revert h; decide
 
+/-- review witnesses.  Header: version 1 / option word count in byte 0, type 1, definition 7, sequence 1, length word
+    40, PTP 5 s / 6 ns; one package (definition 1, declared length 16, time delta 2) with 4 payload bytes. -/
+private def inetHdr (wv : UInt8) : Bytes := [wv, 1, 0,0, 0,0,0,7, 0,0,0,1, 0,0,0,40, 0,0,0,5, 0,0,0,6]
+/-- accepted (no option words; one option word), the package payload returned whole -/
+example : (unpack fresh (inetHdr 0x10 ++ [0,0,0,1, 0,16, 0,0, 0,0,0,2, 1,2,3,4])).2 = .ok () := by rfl
+example : (unpack fresh (inetHdr 0x10 ++ [0,0,0,1, 0,16, 0,0, 0,0,0,2, 1,2,3,4])).1.packages.map (·.payload) =
+    [[1,2,3,4]] := by rfl
+example : (unpack fresh (inetHdr 0x11 ++ [9,9,9,9] ++ [0,0,0,1, 0,16, 0,0, 0,0,0,2, 1,2,3,4])).2 = .ok () := by rfl
+/-- rejected: 23-byte header (ValueError); two option words declared, one present; package header cut after 11 bytes;
+    package declaring length 11 < 12 (ValueError) -/
+example : (unpack fresh ((inetHdr 0x10).take 23)).2 = .error .value := by rfl
+example : (unpack fresh (inetHdr 0x12 ++ [9,9,9,9])).2 = .error .struct := by rfl
+example : (unpack fresh (inetHdr 0x10 ++ [0,0,0,1, 0,16, 0,0, 0,0,0])).2 = .error .struct := by rfl
+example : (Pkg.unpack Pkg.fresh [0,0,0,1, 0,11, 0,0, 0,0,0,2, 1,2,3,4]).2 = .error .value := by rfl
+/-- joint witness for `iNETPackage_exact` (declared 16 ≤ 18 present): the payload is
+    exactly the declared 4 bytes, the 2 bytes after it are left alone -/
+example : (Pkg.unpack Pkg.fresh [0,0,0,1, 0,16, 0,0, 0,0,0,2, 1,2,3,4, 7,7]).2 = .ok [7,7] ∧
+    (Pkg.unpack Pkg.fresh [0,0,0,1, 0,16, 0,0, 0,0,0,2, 1,2,3,4, 7,7]).1.payload = [1,2,3,4] := ⟨rfl, rfl⟩
+/-- observation: the header's own length word (40 above, 44 bytes present) is not compared with anything -/
+example : (unpack fresh (inetHdr 0x10 ++ [0,0,0,1, 0,16, 0,0, 0,0,0,2, 1,2,3,4] ++ [0,0,0,1, 0,12, 0,0, 0,0,0,3])).2 =
+    .ok () := by rfl
+
 end Acra.Props.C09
